@@ -35,7 +35,7 @@ import (
 // this submatrix is of size n×nrhs, and of size m×nrhs otherwise.
 //
 // work is temporary storage, and lwork specifies the usable memory length.
-// At minimum, lwork >= max(m,n) + max(m,n,nrhs), and this function will panic
+// At minimum, lwork >= max(1, min(m,n) + max(min(m,n),nrhs)), and this function will panic
 // otherwise. A longer work will enable blocked algorithms to be called.
 // In the special case that lwork == -1, work[0] will be set to the optimal working
 // length.
